@@ -1227,3 +1227,46 @@ def m_slice_join(I, c, args, fr):
             out.extend(sep)
         out.extend(as_items(p))
     return StrBuf(out)
+
+def _iter_cmp(I, a, b):
+    while True:
+        x = iter_next(I, a); y = iter_next(I, b)
+        if x is STOP and y is STOP:
+            return 0
+        if x is STOP:
+            return -1
+        if y is STOP:
+            return 1
+        r = val_cmp(I, x, y)
+        if r != 0:
+            return r
+
+def _into_iter(I, v):
+    it = v
+    if not isinstance(it, Iter):
+        it = MODELS['IntoIterator::into_iter'](I, None, [v], None)
+    return it
+
+@model('Iterator::cmp')
+def m_iter_cmp(I, c, args, fr):
+    return ordering(_iter_cmp(I, args[0], _into_iter(I, args[1])))
+
+@model('Iterator::partial_cmp')
+def m_iter_partial_cmp(I, c, args, fr):
+    return some(ordering(_iter_cmp(I, args[0], _into_iter(I, args[1]))))
+
+@model('Iterator::eq', 'Iterator::ne')
+def m_iter_eq(I, c, args, fr):
+    a = args[0]; b = _into_iter(I, args[1])
+    while True:
+        x = iter_next(I, a); y = iter_next(I, b)
+        if x is STOP or y is STOP:
+            r = x is STOP and y is STOP
+            return r if c.name == 'eq' else not r
+        if not I.ctx.decide(val_eq(I, x, y)):
+            return c.name != 'eq'
+
+@model('Iterator::lt', 'Iterator::le', 'Iterator::gt', 'Iterator::ge')
+def m_iter_lt(I, c, args, fr):
+    r = _iter_cmp(I, args[0], _into_iter(I, args[1]))
+    return {'lt': r < 0, 'le': r <= 0, 'gt': r > 0, 'ge': r >= 0}[c.name]
